@@ -1601,9 +1601,11 @@ async fn emit_event(
     buffer: &Arc<Mutex<Vec<Event>>>,
     event_log: &EventLog,
 ) {
-    let _ = sender.send(event.clone());
+    // Record before publishing: a subscriber that subscribes and then snapshots the
+    // buffer must find every frame in at least one of the two.
     let mut guard = buffer.lock().await;
     guard.push(event.clone());
+    let _ = sender.send(event.clone());
     let _ = event_log.append(&event);
 }
 
